@@ -33,13 +33,25 @@ def save_meta(i, m):
     json.dump(m, open(meta_path(i), "w"), indent=1)
 
 
+DEFAULT_BASE = "00b458a"     # /repo HEAD when the first two rounds of seeded changes were written
+
+
 def scratch(with_patch, i):
+    """Scratch copy of /repo at the commit the change was written against (meta 'base'; VERIF_SEED_BASE=worktree uses /repo's
+    working tree instead), with the patch applied on request."""
     tmp = tempfile.mkdtemp(prefix="verif-seed-")
-    for d in ("src", "tests"):
-        shutil.copytree(os.path.join("/repo", d), os.path.join(tmp, d), ignore=shutil.ignore_patterns("__pycache__"))
-    for f in os.listdir("/repo"):
-        if f.endswith((".toml", ".cfg", ".ini")) or f == "conftest.py":
-            shutil.copy(os.path.join("/repo", f), tmp)
+    base = os.environ.get("VERIF_SEED_BASE") or load_meta(i).get("base") or DEFAULT_BASE
+    if base == "worktree":
+        for d in ("src", "tests"):
+            shutil.copytree(os.path.join("/repo", d), os.path.join(tmp, d), ignore=shutil.ignore_patterns("__pycache__"))
+        for f in os.listdir("/repo"):
+            if f.endswith((".toml", ".cfg", ".ini")) or f == "conftest.py":
+                shutil.copy(os.path.join("/repo", f), tmp)
+    else:
+        a = subprocess.run(f"git -C /repo archive {base} | tar -x -C {tmp}", shell=True, capture_output=True, text=True)
+        if a.returncode != 0:
+            shutil.rmtree(tmp, ignore_errors=True)
+            raise SystemExit(f"cannot export {base}: {a.stderr}")
     if with_patch:
         p = subprocess.run(["patch", "-p1", "-s", "-i", os.path.join(SEEDED, i, "patch.diff")], cwd=tmp, capture_output=True, text=True)
         if p.returncode != 0:
@@ -59,8 +71,11 @@ def collect(i, wt):
     if os.path.exists(demo):
         s = open(demo).read().replace(wt, "$ROOT")
         open(os.path.join(d, "demo_seed.py"), "w").write(s)
+    notes = os.path.join(wt, "NOTES.md")
+    if os.path.exists(notes):
+        open(os.path.join(d, "NOTES.md"), "w").write(open(notes).read().replace(wt, "$ROOT"))
     m = load_meta(i)
-    m.update(id=i, property=i.split("-")[0], files=sorted({l[6:] for l in diff.splitlines() if l.startswith("+++ b/")}),
+    m.update(id=i, property=i.split("-")[0], base=subprocess.run(["git", "-C", wt, "rev-parse", "--short", "HEAD"], capture_output=True, text=True).stdout.strip(), files=sorted({l[6:] for l in diff.splitlines() if l.startswith("+++ b/")}),
              changed_lines=sum(1 for l in diff.splitlines() if l[:1] in "+-" and l[:3] not in ("+++", "---")))
     save_meta(i, m)
     print("collected", i, m["files"], m["changed_lines"], "changed lines")
